@@ -1688,8 +1688,13 @@ class CodeGenerator(NodeVisitor):
             if val != val or val in (float("inf"), float("-inf")):
                 # inf and nan have no literal, their str() is a name
                 self.write(f"float({str(val)!r})")
+            elif str(val)[:1] == "-":
+                # a signed literal is not an atom: (-2.0) ** x
+                self.write(f"({val})")
             else:
                 self.write(str(val))
+        elif isinstance(val, int) and not isinstance(val, bool) and val < 0:
+            self.write(f"({val!r})")
         else:
             self.write(repr(val))
 
